@@ -14,6 +14,14 @@
      interrupt_branch_only_after_cancel    a worker on the `<-b.interruptCtx.Done()` branch => the context
                                            is cancelled
    The last two are steps towards the theorems below, NOT those theorems.
+     pool_counters_B                       (valid parameters) totalGo = uncounted-down workers + creations in
+                                           progress; timeoutGroup.n = effective members (unless cancelled);
+                                           goroutine ids pairwise distinct; map entries are handed-out ids
+
+   PROVED ONE HYPOTHESIS SHORT (rule 3)
+     stuck_running_implies_queue_empty_partial, at_quiescence_none_lost_partial : the full statements below
+     with the single extra hypothesis [invK c] (see props/C12_pool.v); MISSING: invK is preserved by every
+     step.  workers_without_timer_ge_initgo IS the first conjunct of invK, so it has no partial form.
 
    NOT PROVED YET (full statements; P with pvalid P and i_fixa P = true)
 
@@ -40,7 +48,8 @@
        missing: shutdown_completes (C12) for the graceful case; for ShutdownNow the stuck analysis plus
        "after ShutdownNow returned the queue is empty" (proved in the life-cycle layer); the ledger itself
        is agent-pool's PoolProof6.accepted_in_ledger_lemma. *)
-From Ekit Require Import Common Conc PoolModel PoolExamples PoolProofB PoolProofB0 PoolProofB2d PoolProofB2bd PoolProofBz.
+From Ekit Require Import Common Conc PoolModel PoolExamples PoolProofB PoolProofB0 PoolProofB2d PoolProofB2bd PoolProofB3d PoolProofB4d
+  PoolProofB5d PoolProofBz.
 
 (* On the code BEFORE the fix: commit dc56be3 (i_fixa = false): a schedule after which the pool is in
    state RUNNING (Start returned nil), no goroutine is left (totalGo = 0), nothing can run any more, and
@@ -83,3 +92,30 @@ Theorem interrupt_branch_only_after_cancel : forall P evs c t x, exec pstep_cfg 
   lookup t (c_thr c) = Some x -> g_int (pc x) = 1 -> s_ictx (c_sh c) = true.
 Proof. exact interrupt_branch_after_cancel_lemma. Qed.
 Print Assumptions interrupt_branch_only_after_cancel.
+
+(* ---------- goroutine ids and the two counters (valid parameters) ---------- *)
+(* totalGo = workers that have not executed their decrement + creations in progress; unless the context
+   is cancelled, timeoutGroup.n = effective members of the group; ids are pairwise distinct; the group's
+   map only contains ids that were handed out *)
+Theorem pool_counters_B : forall P evs c, pvalid P -> exec pstep_cfg (pinit P) evs = Some c ->
+  s_total (c_sh c) = tsum (pcf g_cnt) (c_thr c) + tsum pend (c_thr c) /\
+  (s_ictx (c_sh c) = true \/ s_gn (c_sh c) = tsum (ing (s_mp (c_sh c))) (c_thr c)) /\
+  (forall X, tsum (own_is X) (c_thr c) <= 1) /\
+  (forall a, In a (s_mp (c_sh c)) -> 1 <= a <= s_idc (c_sh c)).
+Proof. exact counters_lemma. Qed.
+Print Assumptions pool_counters_B.
+
+(* ---------- two target theorems, ONE hypothesis short (rule 3: _partial) ---------- *)
+(* [invK c]: see props/C12_pool.v; its preservation by every step is the missing piece *)
+Theorem stuck_running_implies_queue_empty_partial : forall P evs c,
+  pvalid P -> i_fixc P = true -> exec pstep_cfg (pinit P) evs = Some c -> invK c ->
+  stuck c -> s_state (c_sh c) = SRunning -> s_q (c_sh c) = [].
+Proof. exact stuck_running_implies_queue_empty_partial_lemma. Qed.
+Print Assumptions stuck_running_implies_queue_empty_partial.
+
+Theorem at_quiescence_none_lost_partial : forall P evs c,
+  pvalid P -> i_fixc P = true -> exec pstep_cfg (pinit P) evs = Some c -> invK c ->
+  g_shut (c_gh c) = true \/ g_now (c_gh c) = true -> stuck c ->
+  forall i, In i (g_acc (c_gh c)) -> In i (g_done (c_gh c)) \/ In i (g_returned (c_gh c)).
+Proof. exact at_quiescence_none_lost_partial_lemma. Qed.
+Print Assumptions at_quiescence_none_lost_partial.
